@@ -1,7 +1,7 @@
 (** The logging path of one exec call, composed from the buffer-level models:
     configuration file -> option parsers -> filter chain -> message -> (error handler) -> output.
     Everything the process and the operating system contribute is a field of [world]. *)
-From Snoopy Require Import Lib.CStr Safety.Mem Safety.CLib Safety.Consts Safety.Lits Safety.Str Safety.Filter Safety.Conf Safety.Ds Safety.Out
+From Snoopy Require Import Lib.CStr Safety.Mem Safety.CLib Safety.Consts Safety.Lits Safety.Str Safety.Filter Safety.Conf Safety.Ds Safety.Out Safety.Cgroup Safety.Rpname
      Expand.Model Datasource.Cmdline.
 From Coq Require Import ZifyBool ZifyN ZifyNat.
 Local Open Scope N_scope.
@@ -19,6 +19,8 @@ Record world := {
   w_getlogin : option (list byte); w_sudo_user : option (list byte); w_logname : option (list byte);
   w_strftime : list byte -> list byte;             (* format -> what strftime would produce unbounded *)
   w_dt_default : list byte;                        (* SNOOPY_DATASOURCE_DATETIME_defaultFormat *)
+  w_cgroup_file : option (list byte); w_pid_text : list byte; w_open_err : list byte;   (* /proc/<pid>/cgroup content (None: unreadable), "%d" of the pid, strerror text *)
+  w_status : N -> option (list byte); w_rp_fuel : nat;                              (* /proc/<pid>/status per pid, bound on the parent chain *)
   w_other_ds : list byte -> list byte -> bool * option (list byte);   (* any other data source: failed?, text it prints through snprintf (None: prints nothing) *)
   w_known_ds : list byte -> bool;
   w_known_filter : list byte -> bool;
@@ -85,6 +87,10 @@ Section Top.
     else if list_eqb name ds_login then r <- login_buf c buf size (w_getlogin w) (w_sudo_user w) (w_logname w) ;; Ok (fst r, false)
     else if list_eqb name ds_datetime then
       r <- datetime_buf c buf size (w_strftime w (match arg with [] => w_dt_default w | _ => arg end)) ;; Ok (fst r, false)
+    else if list_eqb name ds_cgroup then cgroup_buf c (s_cg_path c) buf size arg (w_pid_text w) (w_cgroup_file w) (w_open_err w)
+    else if list_eqb name ds_rpname then
+      r <- rpname_buf {| path_cap := s_rp_path c; val_max := s_rp_val_max c; ret_cap := s_rp_ret_cap c |} (w_status w) (w_rp_fuel w) (w_pid w) buf size ;;
+      Ok (fst r, false)
     else
       let '(failed, text) := w_other_ds w name arg in
       match text with
